@@ -6,6 +6,7 @@ R-NZFILTER  every list section of QSexact_print_sol prints entry i iff it is non
             against the exact zero (not a one-sided comparison), it tests the very array whose element is converted to
             text, and the name printed next to it comes from the name array of the same index space."""
 import collections
+import re
 
 from ..core import walk, strip, is_var, callee, const_of, apath, fields_of, show, short_loc, Flow, AnalysisBroken, dominators
 from ..cond import atoms, SWAP
@@ -68,53 +69,132 @@ WORDS = {"QS_LP_OPTIMAL": "OPTIMAL", "QS_LP_INFEASIBLE": "INFEASIBLE", "QS_LP_UN
 OTHER_WORDS = {"OPTIMAL", "INFEASIBLE", "UNBOUNDED"}
 
 
+def _status_var(f):
+    """the local that receives the status: passed by address to QSexact_solver / mpq_QSget_status"""
+    for b, i, c in f.calls():
+        if callee(c) in ("QSexact_solver", "mpq_QSget_status"):
+            for a in c[3]:
+                a = strip(a)
+                if isinstance(a, list) and a and a[0] == "u" and a[1] == "&" and is_var(a[2], kind="l"):
+                    if "int" in (f.ltypes.get(strip(a[2])[2]) or ""):
+                        return strip(a[2])[2]
+    return None
+
+
+def _sv_eval(t, var, val):
+    """value of an int / string expression when the status variable holds val; None if unknown.  Strings evaluate to ('s', text)"""
+    t = strip(t)
+    if not isinstance(t, list) or not t:
+        return None
+    k = const_of(t)
+    if k is not None:
+        return k
+    if t[0] == "s":
+        return ("s", t[1])
+    if is_var(t, name=var, kind="l"):
+        return val
+    if t[0] == "u" and t[1] == "!":
+        v = _sv_eval(t[2], var, val)
+        return None if v is None or isinstance(v, tuple) else int(not v)
+    if t[0] == "b":
+        a, b = _sv_eval(t[2], var, val), _sv_eval(t[3], var, val)
+        if t[1] == "&&":
+            if a == 0 or b == 0:
+                return 0
+            return None if a is None or b is None else 1
+        if t[1] == "||":
+            if (a not in (None, 0)) or (b not in (None, 0)):
+                return 1
+            return None if a is None or b is None else 0
+        if a is None or b is None or isinstance(a, tuple) or isinstance(b, tuple):
+            return None
+        ops = {"==": a == b, "!=": a != b, "<": a < b, ">": a > b, "<=": a <= b, ">=": a >= b}
+        return int(ops[t[1]]) if t[1] in ops else None
+    if t[0] == "q":
+        c = _sv_eval(t[1], var, val)
+        if c is None or isinstance(c, tuple):
+            return None
+        return _sv_eval(t[2] if c else t[3], var, val)
+    return None
+
+
 def run_statusword(prog, funcs=("main", "QSexact_print_sol"), rule="R-STATUSWORD"):
-    res = RuleResult(rule, "under case QS_LP_X of the status switch the text written contains the word X and no other status word; the default "
-                           "case contains none of them")
+    res = RuleResult(rule, "when the status is QS_LP_X the text written contains the word X and no other status word, and for any other "
+                           "status none of the three (the status value is enumerated through the switch / if / conditional-expression forms)")
     for fn in funcs:
         f = prog.require_fn(fn)
-        val2name = {}
+        var = _status_var(f)
+        if var is None:
+            raise AnalysisBroken("%s: no local receives the status from QSexact_solver / QSget_status" % fn)
+        consts = {}
         for b in f.blocks.values():
             l = b.get("l")
-            if l and l[0] == "case" and l[2]:
-                val2name[l[1]] = l[2]
-        found = collections.defaultdict(list)
+            if l and l[0] == "case" and l[2] in WORDS:
+                consts[l[2]] = l[1]
+            if b.get("c") is not None:
+                for nd in walk(b["c"]):
+                    if nd[0] == "n" and nd[2] in WORDS:
+                        consts[nd[2]] = nd[1]
+        for b, i, e in f.elements():
+            trees = [x[1] for x in e[1] if x[1] is not None] if e[0] == "D" else ([e[1]] if e[1] is not None else [])
+            for t in trees:
+                for nd in walk(t):
+                    if nd[0] == "n" and nd[2] in WORDS:
+                        consts[nd[2]] = nd[1]
+        if set(consts) != set(WORDS):
+            raise AnalysisBroken("%s: the status constants %s are not all compared / switched on" % (fn, ", ".join(sorted(set(WORDS) - set(consts)))))
+        other = max(consts.values()) + 1000
+        for cname, val in list(consts.items()) + [("another status", other)]:
+            found = []
 
-        def xfer(b, i, e, st):
-            if e[0] == "C" and st[0] is not None:
-                for a in e[1][3]:
-                    a = strip(a)
-                    if isinstance(a, list) and a and a[0] == "s" and "status" in a[1]:
-                        found[st[0]].append((a[1], e[1][4]))
-            return None
+            def xfer(b, i, e, st, found=found, val=val):
+                if e[0] == "C":
+                    args = e[1][3]
+                    for k2, a in enumerate(args):
+                        a = strip(a)
+                        if isinstance(a, list) and a and a[0] == "s" and re.search(r"(^|[^&\w])status\s*=?\s*(%s|[A-Z])", a[1]):
+                            text = a[1]
+                            if "%s" in text:
+                                subs = [_sv_eval(x, var, val) for x in args[k2 + 1:]]
+                                strs = [x[1] for x in subs if isinstance(x, tuple)]
+                                text = text.replace("%s", strs[0] if strs else "<?>", 1)
+                            found.append((text, e[1][4]))
+                return None
 
-        def rsw(cond, value, allv, st):
-            c = strip(cond)
-            if is_var(c) and c[2] == "status" or (isinstance(c, list) and c and c[0] in ("c", "m", "u")):
-                if value is None:
-                    return [("default",)]
-                return [(val2name.get(value, str(value)),)]
-            return [st]
-        Flow(prog, f, [(None,)], xfer, None, rsw).run()
-        for cname, word in WORDS.items():
+            def refine(cond, truth, st, val=val):
+                v = _sv_eval(cond, var, val)
+                if v is None or isinstance(v, tuple):
+                    return None
+                return [st] if bool(v) == truth else []
+
+            def rsw(cond, value, allv, st, val=val):
+                c = strip(cond)
+                if is_var(c, name=var, kind="l"):
+                    if value is None:
+                        return [st] if val not in allv else []
+                    return [st] if value == val else []
+                return [st]
+            Flow(prog, f, [(0,)], xfer, refine, rsw).run()
             res.obligations += 1
             res.nontrivial += 1
-            lits = found.get(cname, [])
-            if not lits:
-                raise AnalysisBroken("%s: no status text found under case %s" % (fn, cname))
-            for text, loc in lits:
+            if not found:
+                if cname in WORDS:
+                    raise AnalysisBroken("%s: no status text found under case %s" % (fn, cname))
+                continue
+            for text, loc in found:
                 words = {w for w in OTHER_WORDS if w in text.replace("NOT_SOLVED", "")}
-                if words != {word}:
-                    res.violations.append(Violation(rule, "%s|case %s writes %s" % (fn, cname, "/".join(sorted(words)) or "no status word"), fn, short_loc(loc),
-                                                    "under case %s the text %r is written; expected the word %s" % (cname, text.strip(), word)))
+                if "<?>" in text and not words:
+                    raise AnalysisBroken("%s: the status text %r is filled in from an expression the rule cannot evaluate" % (fn, text.strip()))
+                want = {WORDS[cname]} if cname in WORDS else set()
+                if words != want:
+                    what = "/".join(sorted(words)) or "no status word"
+                    key = ("%s|case %s writes %s" % (fn, cname, what)) if cname in WORDS else ("%s|default case writes %s" % (fn, what))
+                    if not any(v.key == key for v in res.violations):
+                        res.violations.append(Violation(rule, key, fn, short_loc(loc),
+                                                        "when the status is %s the text %r is written; expected %s" % (
+                                                            cname, text.strip(), ("the word " + WORDS[cname]) if cname in WORDS else "none of the three status words")))
                 else:
-                    res.sample({"function": fn, "case": cname, "text": text.strip()[:40]}, limit=8)
-        for text, loc in found.get("default", []):
-            res.obligations += 1
-            words = {w for w in OTHER_WORDS if w in text}
-            if words:
-                res.violations.append(Violation(rule, "%s|default case writes %s" % (fn, "/".join(sorted(words))), fn, short_loc(loc),
-                                                "the default case (status not one of the three certified outcomes) writes %r" % text.strip()))
+                    res.sample({"function": fn, "status": cname, "text": text.strip()[:40]}, limit=8)
     return res
 
 
